@@ -3,6 +3,7 @@ CONSTANTS
   Focus = {"a", "l"}
   NDcf = 2
   MaxArgv = 2
+  Repeat = TRUE
   Emit = TRUE
 INVARIANT DocumentedOrder
 INVARIANT StagesAgree
